@@ -15,6 +15,7 @@ ASSUME = ["spec/TshStatic.tla: a block is checked in a copy of the context and i
 
 def run(ctx):
     fam = ctx.tlc_family("FamC07", constants={"Tier": '"%s"' % ctx.tier})
+    fam += progflow.scale_cases(ctx, "C07")          # scopes nested up to 12 deep, many sibling blocks, many variables and functions
     ctx.exhaustive["FamC07"] = True
     ctx.static_verdicts = {}
     failures = staticflow.judge(ctx, fam, "fam")
